@@ -398,6 +398,9 @@ def render(case):
                 # [act]: empty and comment lines are the actor's, `[` starts a phase header, `\\` an escape sequence
                 lines = [l for l in lines if l.strip() and l.strip()[0] not in '#[\\']
             norm_items.append(['here', it[1], lines, it[3]])
+            before = seps[i - 1] if i > 0 else case['pre']
+            if before and before[-1] in UWS_ALL:
+                parts.append(' ')  # `<NBSP><<EOF` resembles a here-document start: not covered by the manual
             parts.append(here_text(it[1], lines, it[3], suffix + case.get('htail', '')))
             same_line = ''
             tail = ''  # the end marker line is exactly the marker
